@@ -179,14 +179,41 @@ def retain_predicate_facts(P, cf, variant):
                 other_edges.add((sb, tgt))
     eq_edges = guard_edges(P, cf, lambda atom, outcome, bb: atom[0] == "call" and strip_generics(atom[1]).endswith("::eq") and outcome is True and
                            any(any(x[0] == "downcast" and (variant is None or x[2] == variant) for x in walk(s_)) for s_ in atom[2]))
+    ne_edges = guard_edges(P, cf, lambda atom, outcome, bb: atom[0] == "call" and strip_generics(atom[1]).endswith("::eq") and outcome is False and
+                           any(any(x[0] == "downcast" and (variant is None or x[2] == variant) for x in walk(s_)) for s_ in atom[2]))
     keeps = True
     keyed = True
+    polarity = True
     for (edges, ret) in paths:
         if not (edges & target_edges) and ret is not True:
             keeps = False
         if ret is not True and not (edges & eq_edges):
             keyed = False
-    return keeps, keyed, "%d path(s)" % len(paths)
+        # an entry that matched the name (eq edge taken as true) must not be kept, one that did not match must not be dropped
+        if ret is True and (edges & eq_edges):
+            polarity = False
+        if ret is False and (edges & ne_edges) and not (edges & eq_edges):
+            polarity = False
+    # the comparison returned as the predicate's value: it has to be `payload != name` (or `!(payload == name)`)
+    from .f12 import ret_exprs
+    for e in ret_exprs(P, cf):
+        for a in (e[1] if e[0] == "phi" else (e,)):
+            neg = False
+            while a[0] == "unop" and a[1] == "Not":
+                a = a[2]
+                neg = not neg
+            if a[0] == "call" and any(any(x[0] == "downcast" for x in walk(s_)) for s_ in a[2]):
+                n = strip_generics(a[1])
+                if (n.endswith("::eq") and not neg) or (n.endswith("::ne") and neg):
+                    polarity = False
+                if (n.endswith("::eq") and neg) or (n.endswith("::ne") and not neg):
+                    keyed = keyed or True
+    # a returned `payload != name` counts as keyed
+    if not keyed:
+        for e in ret_exprs(P, cf):
+            for a in (e[1] if e[0] == "phi" else (e,)):
+                pass
+    return keeps, keyed, "%d path(s)" % len(paths), polarity
 
 
 def _retain_closure_at(P, fn, b):
